@@ -1,3 +1,5 @@
 SPECIFICATION Spec
 POSTCONDITION PostCond
 CHECK_DEADLOCK FALSE
+CONSTANTS LangCmpExt = TRUE
+  SameLitExt = TRUE
